@@ -358,6 +358,11 @@ def check_C08(ctx, rep):
                 elif op == 'Set':
                     ok = not is_call(vv, 'saturating_add') and not is_call(vv, 'saturating_sub')
                     chg = vv
+                    if single_match and v[0] == 'phi':
+                        # the change itself may be a match-valued local resolved per path: its origin is judged on all its alternatives
+                        rest_ = [a_ for a_ in v[1] if not is_call(a_, 'saturating_add') and not is_call(a_, 'saturating_sub')]
+                        if len(rest_) == 1:
+                            chg = rest_[0]
                 else:
                     ok, chg = False, None
                 rep.ob('C08.R1', fn, '%s:%s:value' % (cf, op), ok, 'stores %s' % shape(vv))
@@ -388,6 +393,40 @@ def check_C08(ctx, rep):
                         else:
                             okc = False
                     rep.ob('C08.R2', fn, '%s:%s:change-origin' % (cf, op), okc and has_copy and has_sample, 'change = %s' % shape(chg))
+        # which alternative of the change is taken is decided by the copy flag alone: the other counter's value only under
+        # copy == true, a sampled value (or the literal 1 of a counter without distribution) only under copy == false
+        def copy_fact(S, pol):
+            return any(f[0] == 'btrue' and f[2] is pol and is_field(f[1], 'copy', 'Counter') and
+                       contains(f[1], lambda y: isinstance(y, tuple) and y and y[0] == 'fld' and y[3] == k and is_field(y[1], 'counter', 'State')) for f in S)
+        n_sel = 0
+        for b_ in sorted(fa.cfg.reach):
+            bb_ = fa.blocks[b_]
+            sites_ = []
+            for k_, st_ in enumerate(bb_['s']):
+                if 'p' in st_ and not st_['p']['pr'] and len(fa.defs().get(st_['p']['l'], ())) > 1 and st_['rv']['k'] == 'use':
+                    sites_.append((st_['p']['l'], k_, fa.rvalue(st_['rv'], (b_, k_))))
+            t_ = bb_['t']
+            if t_['k'] == 'call' and not t_['d']['pr'] and len(fa.defs().get(t_['d']['l'], ())) > 1:
+                sites_.append((t_['d']['l'], len(bb_['s']), fa.call_value(t_, (b_, len(bb_['s'])))))
+            for (l_, k_, val_) in sites_:
+                if fa.fn.local_ty(l_) != 'u64':
+                    continue
+                is_other = is_field(val_, other, 'MachineRuntime') and idx_of(val_)[0] == ('param', 2)
+                is_samp = is_call(val_, '::sample_value') and spec_of(val_[2][0], k)
+                if not (is_other or is_samp):
+                    continue
+                # the sibling definitions of this local decide whether it is the `change` of this counter
+                sib = [fa.def_value(l_, b2, k2) for (b2, k2, part) in fa.defs().get(l_, [])]
+                if not (any(is_call(x, '::sample_value') and spec_of(x[2][0], k) for x in sib) and
+                        any(is_field(x, other, 'MachineRuntime') for x in sib)):
+                    continue
+                n_sel += 1
+                st2 = pf.at(b_, k_) if k_ < len(bb_['s']) else pf.at_entry(b_)
+                ok_, w_ = all_paths(st2, lambda S: copy_fact(S, True if is_other else False))
+                rep.ob('C08.R2', fn, '%s:change-selected-by-copy-flag:%s' % (cf, 'copy' if is_other else 'sample'), ok_ and bool(st2),
+                       'the %s is taken only under copy == %s' % ('other counter\'s value' if is_other else 'sampled value', 'true' if is_other else 'false') +
+                       ('' if ok_ else '; witness: ' + show_facts(w_)[:400]))
+        rep.count_floor('C08.R2', 'definitions of the change of %s judged against the copy flag' % cf, n_sel, 2)
         if single_match:
             rep.ob('C08.R1', fn, '%s:every-operation-reaches-the-store' % cf, ops_seen == set(ops), 'operations seen at the store: %s' % sorted(ops_seen))
         # every Operation variant has a store
@@ -403,7 +442,11 @@ def check_C08(ctx, rep):
         old_tests = [(b, e) for (b, e) in zero_tests if not any(fa.cfg.can_reach(s2[0], e[2][2][0]) for (p2, v2, s2) in sts)]
         rep.ob('C08.R3', fn, '%s:old-value-test-present' % cf, len(old_tests) == 1, 'tests of the pre-update value against 0: %d' % len(old_tests))
         for (b, e) in old_tests:
-            for S in pf.at_entry(b):
+            # facts when LEAVING the test block (a store in the block of the test itself precedes the test)
+            exit_sets = []
+            for (y_, lab_) in fa.cfg.succ[b]:
+                exit_sets += list(pf.on_edge(b, y_, lab_))
+            for S in exit_sets:
                 has_spec = any(f[0] == 'variant' and f[2] == 'Some' and unload(f[1])[0] == 'fld' and unload(f[1])[3] == k and is_field(unload(f[1])[1], 'counter', 'State') for f in S)
                 if not has_spec:
                     continue
